@@ -1,2 +1,4 @@
 #include "c15_exec.h"
+#include "c15_many.h"
 VH_CONFIG("st_mini", [](vh::Case& c) { c15::run_case<stc::Opt_mini>(c, c15::Gen{0 != 0, 0 != 0, 1 != 0}, "mini"); });
+VH_CONFIG("st_many_vertices_mini", [](vh::Case& c) { c15::run_many_vertices<stc::Opt_mini>(c, "mini"); });
